@@ -97,7 +97,9 @@ func content(path, id string, depImport string) []byte {
 		return []byte{}
 	}
 	if !strings.HasSuffix(path, ".proto") {
-		return []byte("content " + id + " of " + path + "\n")
+		// (the same bytes for every file that is not a .proto file: a licence, a documentation file and a stray file with
+		//  one content id are byte-identical files at different paths)
+		return []byte("content " + id + "\n")
 	}
 	pkg := "m" + fmt.Sprint(len(path)) + strings.NewReplacer("/", "_", ".", "_", "-", "_", " ", "_").Replace(path)
 	var sb strings.Builder
@@ -370,13 +372,18 @@ func run(in []byte) (*reg.Result, error) {
 							werr = err
 						}
 					}
+					// (in every other state the sibling modules have no name: the digest of a dependency counts, not its name)
+					depName, depdepName := "    name: buf.test/verif/dep\n", "    name: buf.test/verif/depdep\n"
+					if i%2 == 1 {
+						depName, depdepName = "", ""
+					}
 					if hasDep {
-						yaml += "  - path: dep\n    name: buf.test/verif/dep\n"
+						yaml += "  - path: dep\n" + depName
 						if err := write("dep/"+st.depImport(), depContent(map[bool]string{true: "W", false: "D"}[st.DepWKT], st.Dep, st.DepDep != "-")); err != nil {
 							werr = err
 						}
 						if st.DepDep != "-" {
-							yaml += "  - path: depdep\n    name: buf.test/verif/depdep\n"
+							yaml += "  - path: depdep\n" + depdepName
 							if err := write("depdep/e/e.proto", depContent("E", st.DepDep, false)); err != nil {
 								werr = err
 							}
@@ -414,6 +421,19 @@ func run(in []byte) (*reg.Result, error) {
 					nodes = append(nodes, n)
 				}
 				if !nodeErr {
+					// the file set of a bucket that holds exactly the module files: one node per path, whatever the contents
+					mf := map[string][]byte{}
+					for _, p := range st.ModuleFiles {
+						mf[rp(p)] = files[rp(p)]
+					}
+					if mb, err := storagemem.NewReadBucket(mf); err == nil {
+						fs, err := bufcas.NewFileSetForBucket(ctx, mb)
+						if err != nil {
+							res.Violate("fileset/error", caseInfo, "NewFileSetForBucket failed: %v", err)
+						} else if fs.Manifest().String() != wantManifest {
+							res.Violate("fileset/manifest", caseInfo, "the manifest of NewFileSetForBucket differs from the canonical text of the specification:\n%q\nvs\n%q", fs.Manifest().String(), wantManifest)
+						}
+					}
 					m, err := bufcas.NewManifest(nodes)
 					if err != nil {
 						fail(err)
